@@ -62,6 +62,12 @@ structure Cfg where
   guard : Bool
   clocks : Bool
   prevFix : Bool
+  /-- C08 repair: `engine.run()` really writes the safe process image -/
+  startWrite : Bool := false
+  /-- C08 repair: interpreter-sourced UOD commands are not executed while paused -/
+  pauseGate : Bool := false
+  /-- C08 repair: `set_error_state` during a run applies the safe state like Pause (Unpause restores) -/
+  errSafe : Bool := false
 deriving Repr
 
 /-- Events of the interpreter that the clock tags listen to. -/
@@ -92,6 +98,17 @@ def overlay : List (Option Int) → List Int → List Int
 
 /-! ## Engine fields -/
 
+/-- one `write_batch` call at the hardware boundary -/
+structure WriteRec where
+  /-- `_runstate_started` when it was made -/
+  active : Bool
+  /-- `_runstate_paused` when it was made -/
+  paused : Bool
+  vals : List Int
+  /-- (history) which outputs a user-sourced command wrote since the pause began -/
+  touched : List Nat
+deriving Repr, DecidableEq
+
 structure Core where
   started : Bool := false
   paused : Bool := false
@@ -119,7 +136,9 @@ structure Core where
   /-- last value written per register -/
   hw : List Int := []
   /-- every `write_batch` so far -/
-  writes : List (List Int) := []
+  writes : List WriteRec := []
+  /-- (history) outputs written by a user-sourced command since the current pause began -/
+  touched : List Nat := []
   -- history variables
   /-- what the most recent Pause captured -/
   lastCap : Option (List (Option Int)) := none
@@ -131,8 +150,17 @@ deriving Repr
 
 namespace Core
 
-def setError (c : Core) : Core :=
-  { c with methodErr := true, sys := .paused, lastErr := true, paused := true }
+/-- `set_error_state`; with the C08 repair an error that pauses a running, not yet paused run applies the safe
+    state exactly like Pause does -/
+def setError (cfg : Cfg) (c : Core) : Core :=
+  if cfg.errSafe && c.started && !c.paused then
+    { c with methodErr := true, sys := .paused, lastErr := true, paused := true,
+             prev := some (capture cfg.safes c.outs), outs := applySafe cfg.safes c.outs,
+             touched := [],
+             lastCap := some (capture cfg.safes c.outs), capRun := c.runId, capLive := true }
+  else
+    { c with methodErr := true, sys := .paused, lastErr := true, paused := true,
+             touched := if c.paused then c.touched else [] }
 
 def clearPrev (cfg : Cfg) (c : Core) : Option (List (Option Int)) :=
   if cfg.prevFix then none else c.prev
@@ -147,7 +175,7 @@ def startRun (cfg : Cfg) (c : Core) : Core :=
 def pause (cfg : Cfg) (c : Core) : Core :=
   { c with paused := true, sys := .paused,
            prev := some (capture cfg.safes c.outs), outs := applySafe cfg.safes c.outs,
-           clkPaused := true,
+           clkPaused := true, touched := [],
            lastCap := some (capture cfg.safes c.outs), capRun := c.runId, capLive := true }
 
 /-- `UnpauseEngineCommand._run` -/
@@ -167,7 +195,9 @@ def unhold (c : Core) : Core :=
 def stopBegin (c : Core) : Core := { c with stopping := true }
 
 def writeImage (c : Core) : Core :=
-  if c.started then { c with hw := c.outs, writes := c.writes ++ [c.outs] } else c
+  if c.started then
+    { c with hw := c.outs, writes := c.writes ++ [⟨true, c.paused, c.outs, c.touched⟩] }
+  else c
 
 /-- second phase of Stop -/
 def stopFinish (cfg : Cfg) (c : Core) : Core :=
@@ -213,7 +243,16 @@ def event (e : Ev) (c : Core) : Core :=
       { c with scopeT := c.scopeT.filter (fun kv => kv.1 != k), scopeS := c.scopeS.erase k }
     else c
 
-def setOut (i : Nat) (v : Int) (c : Core) : Core := { c with outs := c.outs.set i v }
+/-- mark output `i` as commanded by the user -/
+def touch (i : Nat) (l : List Nat) : List Nat := i :: l
+
+/-- the harness' `set` operation: the effect of a user-sourced command on an output tag -/
+def setOut (i : Nat) (v : Int) (c : Core) : Core :=
+  { c with outs := c.outs.set i v, touched := touch i c.touched }
+
+/-- one iteration of a UOD command writing `v` to output `i` -/
+def uwrite (i : Nat) (v : Int) (user : Bool) (c : Core) : Core :=
+  { c with outs := c.outs.set i v, touched := if user then touch i c.touched else c.touched }
 
 /-- `Block Time`.get_value() -/
 def blockObs (c : Core) : Int := c.blocks.getLast?.getD 0
@@ -308,11 +347,17 @@ structure State where
   lastInterp : Bool := false
   /-- protocol violation of the environment: interpreter items supplied while the interpreter is gated -/
   gateViolation : Bool := false
+  /-- number of `cancel_commands` calls so far (lets the UOD layer see that Stop/Restart cancelled everything) -/
+  cancels : Nat := 0
 deriving Repr
 
 /-- `engine.run()`: safe values applied to the output tags, nothing written (not started). -/
 def init (cfg : Cfg) (outs : List Int) : State :=
-  { core := { outs := applySafe cfg.safes outs, hw := outs.map (fun _ => 0) } }
+  let so := applySafe cfg.safes outs
+  if cfg.startWrite then
+    { core := { outs := so, hw := so, writes := [⟨false, false, so, []⟩] } }
+  else
+    { core := { outs := so, hw := outs.map (fun _ => 0) } }
 
 namespace State
 
@@ -374,7 +419,8 @@ def cancelList (src : Cmd) : List Req → State → State
   | r :: rs, s => cancelList src rs (if r.cmd = src then s else cancelOne s r)
 
 /-- `engine.cancel_all_commands(source)` = `cancel_commands(source, finalize=True)` -/
-def cancelAll (src : Cmd) (s : State) : State := cancelList src s.emgr.exec s
+def cancelAll (src : Cmd) (s : State) : State :=
+  { cancelList src s.emgr.exec s with cancels := s.cancels + 1 }
 
 inductive Res where
   | resident | finalized | failed
@@ -522,7 +568,7 @@ def drain (s : State) : State :=
 def cmdPhase (cfg : Cfg) (s : State) : State :=
   let p := cmdLoop cfg (drain s).mgr.exec (drain s)
   let s3 := adopt p.1
-  if p.2 then { s3 with core := s3.core.setError } else s3
+  if p.2 then { s3 with core := s3.core.setError cfg } else s3
 
 /-! ## Operations -/
 
@@ -571,12 +617,12 @@ def interpItem (s : State) : Item → State
   | .cmd c a => enqueue s c false a
 
 /-- `Engine.tick` up to (excluding) `update_calculated_tags` -/
-def tickPre (s : State) (t : TickIn) : State :=
+def tickPre (cfg : Cfg) (s : State) (t : TickIn) : State :=
   let s := { s with now := s.now + t.adv }
-  let s := if t.readFail && !s.core.lastErr then { s with core := s.core.setError } else s
+  let s := if t.readFail && !s.core.lastErr then { s with core := s.core.setError cfg } else s
   if s.core.gate then
     let s := t.items.foldl interpItem s
-    let s := if t.interpFail then { s with core := s.core.setError } else s
+    let s := if t.interpFail then { s with core := s.core.setError cfg } else s
     { s with lastInterp := true }
   else
     { s with lastInterp := false,
@@ -590,7 +636,7 @@ def tickPost (cfg : Cfg) (s : State) : State :=
   { s with core := s.core.writeImage }
 
 def tick (cfg : Cfg) (s : State) (t : TickIn) : State :=
-  tickPost cfg (tickClock cfg t.inc (tickPre s t))
+  tickPost cfg (tickClock cfg t.inc (tickPre cfg s t))
 
 def step (cfg : Cfg) (s : State) : Op → State × Out
   | .user c => if s.core.valid c then (enqueue s c true .none, .accepted) else (s, .rejected)
@@ -598,12 +644,15 @@ def step (cfg : Cfg) (s : State) : Op → State × Out
   | .userBlank => (s, .rejected)
   | .tick t => (tick cfg s t, .none)
   | .setOut i v => ({ s with core := s.core.setOut i v }, .none)
-  | .errApi => ({ s with core := s.core.setError }, .none)
+  | .errApi => ({ s with core := s.core.setError cfg }, .none)
 
 def run (cfg : Cfg) (s : State) (ops : List Op) : State := ops.foldl (fun s o => (step cfg s o).1) s
 
 /-! The code as it is, and with the three repairs; `safes` as in the harness UOD. -/
 def asIs (safes : List (Option Int)) : Cfg := { safes, guard := false, clocks := false, prevFix := false }
 def repaired (safes : List (Option Int)) : Cfg := { safes, guard := true, clocks := true, prevFix := true }
+/-- … and with the three C08 repairs as well -/
+def repaired8 (safes : List (Option Int)) : Cfg :=
+  { safes, guard := true, clocks := true, prevFix := true, startWrite := true, pauseGate := true, errSafe := true }
 
 end OPM.RunState
